@@ -54,6 +54,11 @@ def items(kind, n):
 
 def ref_blocks(L, size, hop, pad):
   n = len(L)
+  if hop == float("inf"):
+    # an endless hop: only the first window exists (complete, or padded when it holds any real item)
+    if n >= size:
+      return [L[:size]]
+    return [L + [pad] * (size - n)] if n > 0 else []
   out = []
   k = 0
   while k * hop + size <= n:
@@ -77,6 +82,12 @@ def gen_blocks(run):
               if route.endswith("hopdefault") and hop != size:
                 continue
               yield (route, n, size, hop, pad, ik)
+  # an endless hop (audiolazy.inf): just the first window
+  for size in (1, 2, 3, 5):
+    for n in range(0, 9):
+      for pad in ("None", "tuple"):
+        for route in ("func-list", "func-gen", "method", "func-positional"):
+          yield (route, n, size, "inf", pad, "mixed")
   # long inputs, large sizes and hops (beyond any internal batch or buffer size)
   for n in (100, 257, 1000, 1024, 1025):
     for size in (16, 64, 100, 128):
@@ -87,12 +98,14 @@ def gen_blocks(run):
 
 def run_blocks(case):
   route, n, size, hop, padk, ik = case
+  if hop == "inf":
+    hop = float("inf")
   pad = PADS[padk]
   L = items(ik, n)
   exp = ref_blocks(L, size, hop, pad)
   # a decoy call with the same size but another hop / pad / input first: state kept between
   # calls (a cached block, a remembered pad value) would leak into the real call
-  for d in blocks(items("str", (n + 3) % 7), size, max(1, hop - 1) if hop > 1 else hop + 1, "decoy"):
+  for d in blocks(items("str", (n + 3) % 7), size, (max(1, hop - 1) if hop > 1 else hop + 1) if hop != float("inf") else size, "decoy"):
     d.append("touched")
   if route == "func-list":
     it = blocks(list(L), size=size, hop=hop, padval=pad)
